@@ -113,9 +113,9 @@ async def _size(
                 [
                     "find -L ",
                     (
-                        " ".join([f'"{p}"' for p in path])
+                        " ".join([shlex.quote(p) for p in path])
                         if isinstance(path, MutableSequence)
-                        else f'"{path}"'
+                        else shlex.quote(path)
                     ),
                     " -type f -exec ls -ln {} \\+ | ",
                     "awk 'BEGIN {sum=0} {sum+=$5} END {print sum}'; ",
@@ -632,7 +632,7 @@ class RemoteStreamFlowPath(
             command = ["chmod"]
             if not follow_symlinks:
                 command.append("-h")
-            command.extend([f"{mode:o}", self.__str__()])
+            command.extend([f"{mode:o}", shlex.quote(self.__str__())])
             result, status = await self.connector.run(
                 location=self.location, command=command, capture_output=True
             )
@@ -709,7 +709,7 @@ class RemoteStreamFlowPath(
             command = ["mkdir", "-m", f"{mode:o}"]
             if parents or exist_ok:
                 command.append("-p")
-            command.append(self.__str__())
+            command.append(shlex.quote(self.__str__()))
             result, status = await self.connector.run(
                 location=self.location, command=command, capture_output=True
             )
@@ -722,7 +722,7 @@ class RemoteStreamFlowPath(
             return await inner_path.read_text(n=n, encoding=encoding, errors=errors)
         else:
             command = ["head", "-c", str(n)] if n >= 0 else ["cat"]
-            command.append(self.__str__())
+            command.append(shlex.quote(self.__str__()))
             result, status = await self.connector.run(
                 location=self.location, command=command, capture_output=True
             )
@@ -766,7 +766,7 @@ class RemoteStreamFlowPath(
         if (inner_path := await self._get_inner_path()) != self:
             await inner_path.rmtree()
         else:
-            command = ["rm", "-rf", self.__str__()]
+            command = ["rm", "-rf", shlex.quote(self.__str__())]
             result, status = await self.connector.run(
                 location=self.location, command=command, capture_output=True
             )
@@ -780,7 +780,7 @@ class RemoteStreamFlowPath(
                 "".join(
                     [
                         "find -L ",
-                        f'"{self.__str__()}"',
+                        shlex.quote(self.__str__()),
                         " -type f -exec ls -ln {} \\+ | ",
                         "awk 'BEGIN {sum=0} {sum+=$5} END {print sum}'; ",
                     ]
@@ -799,7 +799,13 @@ class RemoteStreamFlowPath(
         if (inner_path := await self._get_inner_path()) != self:
             await inner_path.symlink_to(target, target_is_directory=target_is_directory)
         else:
-            command = ["ln", "-snf", str(target), self.__str__()]
+            command = [
+                "ln",
+                "-snf",
+                "--",
+                shlex.quote(str(target)),
+                shlex.quote(self.__str__()),
+            ]
             result, status = await self.connector.run(
                 location=self.location, command=command, capture_output=True
             )
@@ -809,7 +815,13 @@ class RemoteStreamFlowPath(
         if (inner_path := await self._get_inner_path()) != self:
             await inner_path.hardlink_to(target)
         else:
-            command = ["ln", "-nf", str(target), self.__str__()]
+            command = [
+                "ln",
+                "-nf",
+                "--",
+                shlex.quote(str(target)),
+                shlex.quote(self.__str__()),
+            ]
             result, status = await self.connector.run(
                 location=self.location, command=command, capture_output=True
             )
@@ -903,7 +915,8 @@ class RemoteStreamFlowPath(
             if not isinstance(data, str):
                 raise TypeError("data must be str, not %s" % data.__class__.__name__)
             async with await self.connector.get_stream_writer(
-                command=["tee", str(self), ">", "/dev/null"], location=self.location
+                command=["tee", shlex.quote(str(self)), ">", "/dev/null"],
+                location=self.location,
             ) as writer:
                 reader = io.BytesIO(data.encode("utf-8"))
                 while content := reader.read(self.connector.transferBufferSize):
